@@ -340,34 +340,20 @@ func posBuildSites(c *Ctx, R string, build *ssa.Function) []Obligation {
 			if pt, isP := mt.Elem().(*types.Pointer); isP && namedOf(pt.Elem()) == st {
 				return true
 			}
+			if es, isS := mt.Elem().Underlying().(*types.Struct); isS && es.NumFields() == 0 {
+				return true // a set
+			}
 			return false
 		}
 		for _, g := range guardsAt(in.Block()) {
 			if ctx != "" {
 				break // innermost presence test decides
 			}
-			cond, br := stripNot(g.Cond, g.Branch)
-			if lk, isL := cond.(*ssa.Lookup); isL && !lk.CommaOk && isFound(lk) {
-				if br {
+			if lk, presentOnTrue, isP := presenceOf(g.Cond); isP && isFound(lk) {
+				if presentOnTrue == g.Branch {
 					ctx = "present"
 				} else {
 					ctx = "absent"
-				}
-			}
-			if bo, isB := binop(cond, token.EQL, token.NEQ); isB {
-				var lk *ssa.Lookup
-				if l, isL := bo.X.(*ssa.Lookup); isL && isNilConst(bo.Y) {
-					lk = l
-				}
-				if l, isL := bo.Y.(*ssa.Lookup); isL && isNilConst(bo.X) {
-					lk = l
-				}
-				if lk != nil && isFound(lk) {
-					if (bo.Op == token.NEQ) == br {
-						ctx = "present"
-					} else {
-						ctx = "absent"
-					}
 				}
 			}
 		}
